@@ -272,6 +272,26 @@ def check(run):
             judge(c, r, 'in-process:order%d' % o)
         run.case(('case', json.dumps(c, sort_keys=True)), nontrivial=True)
     run.traces += len(cases)
+    # --- a candidate directory regenerated in place (same paths, other species) between two discoveries of one process
+    import shutil
+    regen = os.path.join(run.scratch, 'regen')
+    os.makedirs(regen, exist_ok=True)
+    same_paths = [os.path.join(regen, 'mol_CG.itp'), os.path.join(regen, 'mol_AA.itp'), os.path.join(regen, 'mol_AA.gro')]
+    seen_species = []
+    for sp in ('A', 'B', 'A'):
+        for src, dst in zip([pool.path((sp, 'topCG')), pool.path((sp, 'topAA')), pool.path((sp, 'coorAA'))], same_paths):
+            shutil.copyfile(src, dst)
+        try:
+            with contextlib.redirect_stdout(io.StringIO()):
+                r = cli.sort_molecules(pool.sysfile, list(same_paths), [])
+            seen_species.append(sorted(n for n, info in r.items() if len(info) == 3))
+        except Exception as exc:
+            seen_species.append(['<%s>' % type(exc).__name__])
+    run.case(('regenerated-directory',), nontrivial=True)
+    if seen_species != [['A'], ['B'], ['A']]:
+        run.violation({'check': 'discover:stale_after_candidate_files_changed', 'how': 'in-process'},
+                      {'engine': 'cli', 'spec': 'MC_Cli', 'expected': [['A'], ['B'], ['A']], 'observed': seen_species,
+                       'paths': same_paths})
     # --- ... and in sub-processes under several hash seeds
     seeds = [0, 1, 2, 3] if quick else list(range(12))
     sub_cases = cases if not quick else [c for i, c in enumerate(cases) if i % 3 == run.seed % 3]
